@@ -231,6 +231,31 @@ def gc_directed_programs():
     return pool
 
 
+def long_work_programs(r):
+    """operators that check the budget WHILE they work (per argument / per node): long argument lists and deep
+    trees of (almost) empty atoms, where the work still pending is large compared with the cost per unit -
+    an early bail-out that over-estimates pending work fails under a budget that the final cost fits.
+    -> [(p_tt, e_tt, flagbit, tag)]"""
+    out = []
+    nil, one = b"", i2a(1)
+    for n in (60, 200):
+        for leaf in (nil, b"ab"):
+            right = nil
+            for _ in range(n):
+                right = (leaf, right)
+            left = leaf
+            for _ in range(n):
+                left = (left, leaf)
+            for t, shape in ((right, "list"), (left, "left")):
+                out.append((gen.tt(op(63, q(t))), gen.tt(b""), FLAG["SHA256_TREE"], "deep-%s-%d" % (shape, n)))
+                out.append((gen.tt(op(63, i2a(1))), gen.tt(t), FLAG["SHA256_TREE"], "deep-env-%s-%d" % (shape, n)))
+            for code in (11, 14, 16, 17, 18, 24, 25, 26, 33, 34):
+                if code == 18 and n > 200:
+                    continue
+                out.append((gen.tt(op(code, *[q(leaf)] * n)), gen.tt(b""), 0, "args-%d-%d" % (code, n)))
+    return out
+
+
 UNKNOWN_OPCODES = None
 
 
